@@ -393,6 +393,8 @@ def default_instances():
             ArrayAxisSum(p), ArrayAxisSum(p ** 2, axis=1), PoolSum(x ** i, (i, (sp.Symbol("a"), 2))),
             LegacyExpr(x, sp.Symbol("y"), name="N_x"), LegacyExpr(x, 2),
             ShiftedPower(x, power=2), ScaledWidth(x, 2, offset=sp.Symbol("y"), label="w"),
+            construct(U.decorated()["ampform.kinematics.lorentz.BoostZMatrix"], [sp.Symbol("b"), sp.Symbol("n")], "kw_shuffled", 1),
+            construct(U.decorated()["ampform.kinematics.phasespace.Kallen"], [x, sp.Symbol("y"), sp.Symbol("z")], "kw_shuffled", 2),
             sp.sqrt(LegacyExpr(x, sp.Symbol("y"), name="inner")) + 1]
     return out
 
